@@ -445,6 +445,19 @@ def run(ctx, res):
         res.count("redraw_locality")
         for x in f:
             res.violation("LensLikelihood:inapplicable-lambda-after-redraw", x, {"redraw_locality": True, "seed": rseed})
+    for t in range(ctx.n(14, 100)):
+        useed = rng.randrange(2 ** 31)
+        try:
+            f = reuse_oracle(useed)
+        except Exception as e:  # noqa
+            res.notes.append("dictionary re-use check failed to run: %r" % (e,))
+            res.count("reuse_failed_to_run")
+            continue
+        res.evaluations += 1
+        res.count("reuse_two_models")
+        for x in f:
+            res.violation("LensSampleLikelihood:" + ("construction-edits-input" if x.startswith("building") else "second-model-not-sum-of-lenses"),
+                          x, {"reuse": True, "seed": useed})
     if ctx.search_mode:
         return
     outs = run_driver(lines)
@@ -573,6 +586,59 @@ def redraw_locality_oracle(seed):
     return fails
 
 
+def reuse_oracle(seed):
+    """the user's lens dictionaries serve several analyses: the same list of dictionaries is handed to the sample likelihood
+    under one global model and then under another (model comparison).  Construction must leave the dictionaries as they
+    were, and the second sample is the sum of its lenses under the SECOND model: global settings overridden by what the
+    lens itself states — not by what an earlier construction may have left behind"""
+    import random, json
+    from hierarc.Likelihood.lens_sample_likelihood import LensSampleLikelihood
+    rng = random.Random(seed)
+    for _ in range(50):
+        case = gen_case(rng)
+        if case["lenses"]:
+            break
+    pristine = [copy.deepcopy(kw) for kw, _, _ in case["lenses"]]
+    mine = [copy.deepcopy(kw) for kw in pristine]          # the caller's own dictionaries, re-used
+    glob_a = copy.deepcopy(case["glob"])
+    glob_b = copy.deepcopy(case["glob"])
+    glob_b["alpha_lambda_sampling"] = not bool(glob_a.get("alpha_lambda_sampling", False))
+    nslope_all = sum(1 for kw in pristine if "gamma_pl" in kw.get("kin_scaling_param_list", []))
+    to_global = not case["gglobal"]
+    if to_global:
+        glob_b.update(gamma_pl_global_sampling=True, gamma_pl_global_dist="NONE")
+    else:
+        glob_b.update(gamma_pl_global_sampling=False)
+    hyper_b = copy.deepcopy(case["hyper"])
+    hyper_b["kwargs_lens"]["alpha_lambda"] = 0.23
+    if to_global:
+        hyper_b["kwargs_lens"].pop("gamma_pl_list", None)
+        hyper_b["kwargs_lens"]["gamma_pl_mean"] = rng.choice([2.15, 1.85])
+    elif nslope_all:
+        hyper_b["kwargs_lens"]["gamma_pl_list"] = [rng.uniform(1.7, 2.3) for _ in range(nslope_all)]
+    fails = []
+    snap = json.dumps(enc(mine), sort_keys=True, default=repr)
+    try:
+        LensSampleLikelihood(mine, normalized=False, kwargs_global_model=copy.deepcopy(glob_a))
+    except Exception as e:  # noqa
+        return ["construction raised %s" % err_enum(e)]
+    if json.dumps(enc(mine), sort_keys=True, default=repr) != snap:
+        changed = sorted(set(k for a, b in zip(mine, pristine) for k in set(a) | set(b)
+                             if json.dumps(enc(a.get(k)), default=repr) != json.dumps(enc(b.get(k)), default=repr)))
+        fails.append("building the sample likelihood edits the caller's lens dictionaries (keys %s)" % changed)
+    try:
+        again = LensSampleLikelihood(mine, normalized=False, kwargs_global_model=copy.deepcopy(glob_b))
+        fresh = LensSampleLikelihood(copy.deepcopy(pristine), normalized=False, kwargs_global_model=copy.deepcopy(glob_b))
+        _, tot_again = evaluate(case, again, hyper_b)
+        terms, tot_fresh = evaluate(case, fresh, hyper_b)
+    except Exception as e:  # noqa
+        return fails + ["second model raised %s: %s" % (err_enum(e), str(e)[:80])]
+    if not (tot_again == tot_fresh or (math.isnan(tot_again) and math.isnan(tot_fresh))):
+        fails.append("the same lens dictionaries under a second global model (changed: alpha_lambda_sampling, gamma_pl_global_sampling) "
+                     "give %r, but the lenses evaluated under that model sum to %r" % (tot_again, tot_fresh))
+    return fails
+
+
 def vector_path_oracle(seed):
     """the sample evaluated through the SAMPLING VECTOR (CosmoLikelihood.likelihood(args)) equals the sum of its lenses, each
     evaluated alone with the hyper-parameters that the vector encodes BY NAME — in particular every lens with the
@@ -629,6 +695,9 @@ def replay(ctx, data):
         return bool(f), str(f)
     if inp.get("redraw_locality"):
         f = redraw_locality_oracle(inp.get("seed", 0))
+        return bool(f), str(f)
+    if inp.get("reuse"):
+        f = reuse_oracle(inp.get("seed", 0))
         return bool(f), str(f)
     if inp.get("cosmo_additive"):
         f = cosmo_additive(random.Random(inp.get("seed", 0)))
